@@ -37,7 +37,16 @@ func (db *DB) SetMode(m mode.Mode) error {
 	}
 
 	if err != nil {
-		return fmt.Errorf("can't set metabase mode (old=%s, new=%s): %w", db.mode, m, err)
+		err = fmt.Errorf("can't set metabase mode (old=%s, new=%s): %w", db.mode, m, err)
+		// The old handle is closed and the new one is unusable: fall back to the
+		// mode that never touches boltDB, so that readers get ErrDegradedMode
+		// instead of dereferencing a nil/closed handle and a retry reopens the DB.
+		if db.boltDB != nil {
+			_ = db.boltDB.Close()
+			db.boltDB = nil
+		}
+		db.mode = mode.DegradedReadOnly
+		return err
 	}
 
 	db.mode = m
